@@ -142,6 +142,18 @@ def shrink_workload(w, test_batch, budget: Budget, batch=16):
     w = copy.deepcopy(w)
     w.pop("knobs", None)
     w.pop("paths", None)
+    # long sample lists first: ddmin over whole samples (the fine-grained candidates below are quadratic in list length)
+    for mi in range(len(w["models"])):
+        if len(w["models"][mi][1]) > 12 and budget.left > 0:
+            def test(sub, mi=mi):
+                if not sub:
+                    return False
+                c = copy.deepcopy(w)
+                c["models"][mi][1] = list(sub)
+                return bool(test_batch([c])[0])
+            kept = ddmin(w["models"][mi][1], test, Budget(min(60, budget.left)))
+            if kept:
+                w["models"][mi][1] = kept
     progress = True
     while progress and budget.left > 0:
         progress = False
